@@ -744,6 +744,29 @@ func init() {
 					bad("key", "recorded signature no longer verifies with the parsed key")
 				}
 				if g.ID != "key-web" {
+					// a key ring read record by record through one scratch buffer: the stored bytes are decoded, the buffer is
+					// reused for the next record, and the key that was loaded is still the stored identity
+					buf := append([]byte{}, s.Encode()...)
+					var s2 principal.Signer
+					if strings.Contains(g.ID, "rsa") {
+						s2, err = rsasig.Decode(buf)
+					} else {
+						s2, err = edsig.Decode(buf)
+					}
+					if err != nil {
+						bad("key", "the encoded form of the recorded key no longer decodes: "+err.Error())
+					} else {
+						for j := range buf {
+							buf[j] = byte(j)
+						}
+						if s2.DID().String() != g.DID || !bytes.Equal(s2.Encode(), s.Encode()) ||
+							!s2.Verifier().Verify([]byte("golden message"), signature.Decode(sigb)) ||
+							!s.Verifier().Verify([]byte("reissued"), s2.Sign([]byte("reissued"))) {
+							bad("key", "a key decoded from a buffer that was reused afterwards is no longer the stored identity")
+						}
+					}
+				}
+				if g.ID != "key-web" {
 					if s.DID().String() != g.DID {
 						bad("key", "recorded key string parses to another DID")
 					}
